@@ -14,7 +14,7 @@ import math
 import pandas as pd
 
 from mcx import sched
-from mcx.common import (OPS, PRUNED_MEASURES, cell, classify, isna, join_fn, levenshtein, lib, make_tokenizer,
+from mcx.common import (frame_rows, OPS, PRUNED_MEASURES, cell, classify, isna, join_fn, levenshtein, lib, make_tokenizer,
                         reported, sim_counts)
 from py_stringmatching.tokenizer.qgram_tokenizer import QgramTokenizer
 
@@ -480,7 +480,7 @@ def w_matcher_config(job):
                          'detail': {}})
     for cname in job['candsets']:
         C = cands[cname]
-        crows = C.values.tolist()
+        crows = frame_rows(C)
         for sname in job['sims']:
             spec, mk, ref, ths = sims[sname]
             reft = None if spec is None else (QgramTokenizer(qval=spec[1], padding=spec[2], return_set=spec[3])
@@ -521,7 +521,7 @@ def w_matcher_config(job):
                                             r_ = [cell(row[0]), cell(row[1]), cell(row[2])] + \
                                                  [cell(lrec[i][c]) for c in la] + [cell(rrec[j][c]) for c in ra]
                                             exp.append(tuple(r_ + ([sc] if score else [])))
-                                        got = [tuple(cell(v) for v in row) for row in out.values.tolist()] if len(C) else []
+                                        got = [tuple(cell(v) for v in row) for row in frame_rows(out)] if len(C) else []
                                         if exp:
                                             nontrivial += 1
                                         if list(out.columns) != header and len(C):
